@@ -22,6 +22,9 @@ import (
 	"unicode/utf16"
 	"unicode/utf8"
 
+	gast "github.com/yuin/goldmark/ast"
+	east "github.com/yuin/goldmark/extension/ast"
+	gutil "github.com/yuin/goldmark/util"
 	xhtml "golang.org/x/net/html"
 
 	"github.com/gotd/td/telegram/message/entity"
@@ -443,6 +446,113 @@ func genMD(r *hx.Rand, bad bool) []byte {
 	return sb.Bytes()
 }
 
+// ---- projection of the goldmark AST to the node kinds the renderer distinguishes ----
+// (a mirror of the type switches in renderBlock / renderInline; the renderer itself is the Coq model)
+type mdWalk struct {
+	src      []byte
+	badChunk bool // some byte string the renderer would write is not valid UTF-8
+}
+
+func (w *mdWalk) chunk(b []byte) string {
+	if !utf8.Valid(b) {
+		w.badChunk = true
+	}
+	return cb(b)
+}
+
+func (w *mdWalk) inls(n gast.Node) string {
+	var items []string
+	for c := n.FirstChild(); c != nil; c = c.NextSibling() {
+		items = append(items, w.inl(c))
+	}
+	out := "INil"
+	for i := len(items) - 1; i >= 0; i-- {
+		out = "(ICons " + items[i] + " " + out + ")"
+	}
+	return out
+}
+
+func urlF(dest string, emoji bool) int {
+	switch markdown.VerifURLFormatter(dest, emoji) {
+	case -1:
+		return -1
+	case 0:
+		return 0
+	case 1:
+		return kCustomEmoji + 1
+	case 2:
+		return kDate + 1
+	case 3:
+		return kMentionName + 1
+	default:
+		return kTextURL + 1
+	}
+}
+
+func (w *mdWalk) inl(n gast.Node) string {
+	switch n := n.(type) {
+	case *gast.Text:
+		raw := n.Segment.Value(w.src)
+		un := gutil.UnescapePunctuations(raw)
+		return "(MText " + w.chunk(raw) + " " + w.chunk(un) + " " + hx.B(n.SoftLineBreak() || n.HardLineBreak()) + ")"
+	case *gast.String:
+		return "(MString " + w.chunk(n.Value) + ")"
+	case *gast.CodeSpan:
+		return "(MCode " + w.inls(n) + ")"
+	case *gast.Emphasis:
+		if n.Level >= 2 {
+			return fmt.Sprintf("(MStyled %d %s)", kBold, w.inls(n))
+		}
+		return fmt.Sprintf("(MStyled %d %s)", kItalic, w.inls(n))
+	case *east.Strikethrough:
+		return fmt.Sprintf("(MStyled %d %s)", kStrike, w.inls(n))
+	case *gast.Link:
+		return "(MLink " + w.inls(n) + " " + hx.Z(int64(urlF(string(n.Destination), false))) + ")"
+	case *gast.Image:
+		return "(MLink " + w.inls(n) + " " + hx.Z(int64(urlF(string(n.Destination), true))) + ")"
+	}
+	if n.Kind() == markdown.KindSpoiler {
+		return fmt.Sprintf("(MStyled %d %s)", kSpoiler, w.inls(n))
+	}
+	return "(MInl " + w.inls(n) + ")"
+}
+
+func (w *mdWalk) blocks(n gast.Node) string {
+	var items []string
+	for c := n.FirstChild(); c != nil; c = c.NextSibling() {
+		items = append(items, w.block(c))
+	}
+	out := "BNil"
+	for i := len(items) - 1; i >= 0; i-- {
+		out = "(BCons " + items[i] + " " + out + ")"
+	}
+	return out
+}
+
+func (w *mdWalk) block(n gast.Node) string {
+	switch n := n.(type) {
+	case *gast.Paragraph, *gast.TextBlock:
+		return "(MPara " + w.inls(n) + ")"
+	case *gast.Blockquote:
+		return "(MQuote " + w.blocks(n) + ")"
+	case *gast.FencedCodeBlock:
+		var ls []string
+		var code []byte
+		lines := n.Lines()
+		for i := 0; i < lines.Len(); i++ {
+			seg := lines.At(i)
+			v := seg.Value(w.src)
+			code = append(code, v...)
+			ls = append(ls, cb(v))
+		}
+		if !utf8.Valid(bytes.TrimRight(code, "\n")) {
+			w.badChunk = true
+		}
+		return "(MFenced " + hx.List(ls) + " " + hx.B(string(n.Language(w.src)) != "") + ")"
+	}
+	return "(MBlock " + w.blocks(n) + ")"
+}
+
 func main() {
 	c := hx.Start("C37", "Run.Check_C37", 150)
 	htmlOne := func(kind string, in []byte, disable, fail bool, pre int) {
@@ -479,11 +589,26 @@ func main() {
 		if o.St == 0 && len(o.Ents) > 0 {
 			c.Nontrivial("m:" + string(in))
 		}
-		if utf8.Valid(in) && o.St == 1 && strings.Contains(o.Err, "UTF-8") {
+		// the renderer is modelled: hand the AST goldmark produced to the Coq model
+		valid := utf8.Valid(in)
+		w := &mdWalk{src: in}
+		var doc string
+		if p, _ := hx.Recover(func() { doc = w.blocks(markdown.VerifParse(in)) }); p {
+			c.Violate("goldmark-panic", fmt.Sprintf("goldmark panicked on %q", in), -1, 0, rp)
+			return
+		}
+		if valid && w.badChunk {
+			c.Violate("goldmark-chunk-not-utf8", fmt.Sprintf("markdown(%q): goldmark cut a valid UTF-8 source into a byte string that is not valid UTF-8", in), -1, 0, rp)
+		}
+		sh, ix := -1, 0
+		if len(in) <= 200 {
+			sh, ix = c.Case("CMd "+hx.B(valid)+" "+doc+" "+coqObs(o), rp)
+		}
+		if valid && o.St == 1 && strings.Contains(o.Err, "UTF-8") {
 			c.Violate("markdown-rejects-valid-utf8", fmt.Sprintf("markdown(%q): %s", in, o.Err), -1, 0, rp)
 		}
 		if sig, desc := judge("markdown", in, o); sig != "" {
-			c.Violate(sig, desc, -1, 0, rp)
+			c.Violate(sig, desc, sh, ix, rp)
 		}
 	}
 	unescOne := func(in []byte) {
@@ -561,13 +686,13 @@ func main() {
 		}
 		unescOne(sb.Bytes())
 	}
-	for i := c.N(1500, 100000); i > 0; i-- {
+	for i := c.N(500, 100000); i > 0; i-- {
 		mdOne("md-soup", genMD(c.Rng, false))
 	}
-	for i := c.N(400, 20000); i > 0; i-- {
+	for i := c.N(100, 20000); i > 0; i-- {
 		mdOne("md-soup-bad-utf8", genMD(c.Rng, true))
 	}
-	for i := c.N(200, 10000); i > 0; i-- {
+	for i := c.N(60, 10000); i > 0; i-- {
 		mdOne("md-random-bytes", c.Rng.Bytes(c.Rng.Range(0, 24)))
 	}
 	c.Obs.Rule = "TDLib/parser test corpus + frozen corpus, random tag soups (known and unknown tags, attributes, numeric/named entities incl. overflow and surrogates, </>, comments, unclosed tags), invalid UTF-8 and split runes, random bytes, read errors; HTML: token stream of the real tokenizer replayed on the Coq model (exact text/entities/error/panic), Markdown and the tokenizers themselves: exploration under the oracle only; non-trivial = distinct input that parses without error and yields at least one entity"
